@@ -5,6 +5,22 @@ HERE = os.path.dirname(os.path.dirname(os.path.abspath(__file__)))
 PY = '/venv/bin/python'
 
 CHECKS = {
+ 'C01': dict(sec='2/C01', cat='exploration',
+   text='Every generated table set (all supported column types, hostile strings, extreme numbers, zero-row tables, structure-name torture, headers, Table API, big-endian input) is written with the real writer and read back twice (returned object and fresh read); a table-set model checks names, order, dtypes, rows, bit-identical floats and header text, and unsupported column types must be refused without leaving a file. Held on the documents observed; coverage is sampling of an infinite input space with reach evidence of the writer/parser lines.',
+   note='Trusts numpy bit views for float comparison and the stated exclusions of inexpressible texts (listed in the evidence assumptions).',
+   tech='runtime monitoring: boundary recorder + reference-model (round-trip) oracle over generated documents'),
+ 'C02': dict(sec='2/C02', cat='exploration',
+   text='A logical-document model is rendered in two independent admissible surface forms (19 layout freedoms incl. hostile trailing comments, CRLF, continuation, brace/quote spellings, legacy brackets, interleaving, commented-out typedefs) and parsed by the real reader from path, text and binary file objects in normal and raw mode; the parse must equal the model and the two renderings must agree (metamorphic). Held on the (document x layout) pairs observed, with counters showing each freedom was exercised.',
+   note='Trusts the renderer to emit only forms the SDSS specification permits (domain notes in DESIGN C02 D / evidence assumptions).',
+   tech='runtime monitoring: document-model oracle + metamorphic comparison over rendered files'),
+ 'C03': dict(sec='2/C03', cat='exploration',
+   text='History checker: random operation sequences (append rows/pairs, empty append, write-copy, refused writes/appends, re-read normal/raw) run on the real object; after every step object == fresh read == model, earlier bytes are a prefix of the new file, refusals leave directory and object untouched, and an audit hook on open() forbids writing an existing file or appending to a missing one. Held on the histories observed.',
+   note='Trusts the audit hook to see every io-layer open, and os.listdir/byte reads of the sandbox directory.',
+   tech='runtime monitoring: history checker against an executable model + sys.addaudithook open() monitor'),
+ 'C07': dict(sec='2/C07', cat='exploration',
+   text='Generated maskbits files (sparse bits incl. 0/31/32/62/63, aliases, comments) go through the real raw-mode yanny path into set_maskbits; ~40 queries per file are checked against the generating definition in Python ints (OR of 2^bit, ascending defined names, both round trips, case-insensitivity, alias equivalence, KeyError exactly when needed, existence-tuple shapes). Held on the files and queries observed.',
+   note='Trusts the generated definition as ground truth; file content upper-case with one label per bit (property domain).',
+   tech='runtime monitoring: boundary recorder + reference-model oracle over generated definition files'),
  'C06': dict(sec='2/C06', cat='exploration',
    text='Boundary recorder on sdss_objid/sdss_specobjid/unwrap_* with a big-int reference packer as online oracle: per-field exhaustive sweeps, all vN_M_P strings, sampled scalar calls, narrow dtypes, decimal-string IDs and rejection cases. Held-on-observed, not a proof: fields are swept one at a time with the others at their extremes, combinations are sampled.',
    note='Trusts the bit layout transcribed from the docstrings and numpy integer semantics; run2d strings with out-of-range components are outside the claim.',
